@@ -1,4 +1,5 @@
 import Bolt.Model.Backup
+import Bolt.Model.MetaWrite
 import Bolt.Driver.Meta
 namespace Bolt.Driver
 open Bolt Bolt.Backup
@@ -12,5 +13,13 @@ def cmdBackup (src out : String) (ps root seq fl pgid txid : Nat) : IO Unit := d
   let bs := backupBytes f ps (txMeta ps root seq fl pgid txid)
   IO.FS.writeBinFile out (ByteArray.mk bs.toArray)
   IO.println s!"ok bytes={bs.length}"
+
+/-- `metapage <out> <ps> <root> <seq> <freelist> <pgid> <txid>`: the page `Tx.writeMeta` writes
+    for a transaction with that meta (`MetaWrite.metaPageOf`); prints the slot it goes to. -/
+def cmdMetaPage (out : String) (ps root seq fl pgid txid : Nat) : IO Unit := do
+  let m := txMeta ps root seq fl pgid txid
+  let bs := MetaWrite.metaPageOf ps m
+  IO.FS.writeBinFile out (ByteArray.mk bs.toArray)
+  IO.println s!"ok slot={txid % 2} bytes={bs.length}"
 
 end Bolt.Driver
